@@ -3112,6 +3112,19 @@ Section ops6.
     destruct (lock_all_good st G) as (G1 & A1 & _ & D1). splits; assumption.
   Qed.
 
+  Lemma reload_queue_id lk st : Inv0 seed lk st -> HC st ->
+    forall q, incl q (m_queue (st_mem st)) -> reload_queue_accts st q = Ok st tt.
+  Proof.
+    intros I HCs q. induction q as [|[[[s oid] b0] i] rest IH]; intros Hin; [reflexivity|].
+    assert (Hi : In (s, oid, b0, i) (m_queue (st_mem st))) by (apply Hin; left; reflexivity).
+    destruct (i_queue _ _ _ I _ _ _ _ Hi) as (ma & Q1 & Q2 & Q3 & Q4 & Q5 & Q6 & Q7).
+    cbn [reload_queue_accts]. unfold heap_get. rewrite Q1.
+    destruct (aget scope_eq_dec (m_scopes (st_mem st)) s) as [sch|]; [|discriminate].
+    pose proof (HCs oid ma Q1 Q2) as Hc. rewrite Q3 in Hc.
+    destruct (aget sa_dec (m_accts (st_mem st)) (s, dp_iacct (ma_path ma))) as [ai|] eqn:Ec; [|discriminate].
+    unfold load_acct. rewrite Ec. cbn [bind]. apply IH. intros x Hx. apply Hin. right. exact Hx.
+  Qed.
+
   Lemma step_unlock b st pass :
     Good seed st ->
     let st' := fst (step b st (OUnlock pass)) in
@@ -3125,6 +3138,7 @@ Section ops6.
     destruct (negb (pass =? m_pass (st_mem st))); simpl.
     { destruct (lock_all_good st G) as (G1 & A1 & _ & D1). splits; assumption. }
     (* the successful path *)
+    rewrite (reload_queue_id _ st I HCs _ (incl_refl _)).
     set (st1 := upd_mem (fun m => set_m_accts (amap fill_priv (m_accts m)) m) st).
     assert (Hst1 : st1 = mkState (st_disk st)
                      (mkMem (m_locked (st_mem st)) (m_pass (st_mem st)) (m_scopes (st_mem st))
